@@ -34,6 +34,8 @@ type Imp struct {
 	Min  uint32  `json:"min,omitempty"`
 	Max  *uint32 `json:"max,omitempty"`
 	Mut  bool    `json:"mut,omitempty"`
+	// Shared: memory imports only (threads proposal)
+	Shared bool `json:"shared,omitempty"`
 }
 
 type LFunc struct {
@@ -49,8 +51,9 @@ type LTable struct {
 }
 
 type LMem struct {
-	Min uint32  `json:"min"`
-	Max *uint32 `json:"max,omitempty"`
+	Min    uint32  `json:"min"`
+	Max    *uint32 `json:"max,omitempty"`
+	Shared bool    `json:"shared,omitempty"`
 }
 
 // CE is a constant expression: 'c' constant bits, 'g' global.get, 'f' ref.func, 'n' ref.null
@@ -132,7 +135,7 @@ func (d *Desc) Tokens() string {
 		case 't':
 			t = append(t, fmt.Sprintf("it:%s:%s:%c:%d:%s", i.Mod, i.Name, vtChar[i.VT], i.Min, optStr(i.Max)))
 		case 'm':
-			t = append(t, fmt.Sprintf("im:%s:%s:%d:%s", i.Mod, i.Name, i.Min, optStr(i.Max)))
+			t = append(t, fmt.Sprintf("im:%s:%s:%d:%s:%s", i.Mod, i.Name, i.Min, optStr(i.Max), b01(i.Shared)))
 		case 'g':
 			t = append(t, fmt.Sprintf("ig:%s:%s:%c:%s", i.Mod, i.Name, vtChar[i.VT], b01(i.Mut)))
 		}
@@ -148,7 +151,7 @@ func (d *Desc) Tokens() string {
 		t = append(t, fmt.Sprintf("lt:%c:%d:%s", vtChar[x.RT], x.Min, optStr(x.Max)))
 	}
 	if d.Mem != nil {
-		t = append(t, fmt.Sprintf("lm:%d:%s", d.Mem.Min, optStr(d.Mem.Max)))
+		t = append(t, fmt.Sprintf("lm:%d:%s:%s", d.Mem.Min, optStr(d.Mem.Max), b01(d.Mem.Shared)))
 	}
 	for _, g := range d.Globals {
 		t = append(t, fmt.Sprintf("lg:%c:%s:%s", vtChar[g.VT], b01(g.Mut), g.Init.tok()))
@@ -285,6 +288,14 @@ func limits(min uint32, max *uint32) []byte {
 	return append(append([]byte{1}, u32(min)...), u32(*max)...)
 }
 
+// memLimits: limits of a memory type; a shared memory (flag 3) always has a maximum
+func memLimits(min uint32, max *uint32, shared bool) []byte {
+	if !shared {
+		return limits(min, max)
+	}
+	return append(append([]byte{3}, u32(min)...), u32(*max)...)
+}
+
 func section(id byte, body []byte) []byte {
 	return append(append([]byte{id}, u32(uint32(len(body)))...), body...)
 }
@@ -414,7 +425,7 @@ func (d *Desc) Encode() []byte {
 		case 't':
 			b = cat(b, []byte{1, i.VT}, limits(i.Min, i.Max))
 		case 'm':
-			b = cat(b, []byte{2}, limits(i.Min, i.Max))
+			b = cat(b, []byte{2}, memLimits(i.Min, i.Max, i.Shared))
 		case 'g':
 			m := byte(0)
 			if i.Mut {
@@ -508,7 +519,7 @@ func (d *Desc) Encode() []byte {
 		out = append(out, section(4, vec(ts))...)
 	}
 	if d.Mem != nil {
-		out = append(out, section(5, vec([][]byte{limits(d.Mem.Min, d.Mem.Max)}))...)
+		out = append(out, section(5, vec([][]byte{memLimits(d.Mem.Min, d.Mem.Max, d.Mem.Shared)}))...)
 	}
 	if len(d.Globals) > 0 {
 		var gs [][]byte
